@@ -31,6 +31,11 @@ pub struct Reference {
     pub alphabet: Vec<u32>,
     pub maxdepth: usize,
     pub maxchain: usize,
+    /// Leftmost kinds, by definition (see `leftmost_spec`): the pattern a state must carry as its
+    /// output (None = must carry none), and the target node of the leftmost transition function
+    /// for every (node, alphabet symbol).
+    pub lm_expect: Vec<Option<usize>>,
+    pub lm_next: Vec<Vec<u32>>,
 }
 
 pub fn compute(e: &Entry) -> Reference {
@@ -106,7 +111,14 @@ pub fn compute(e: &Entry) -> Reference {
     }
     let maxdepth = nodes.iter().map(Vec::len).max().unwrap_or(0);
     let maxchain = out.iter().map(Vec::len).max().unwrap_or(0);
+    let (lm_expect, lm_next) = if e.kind == MatchKind::Standard {
+        (vec![], vec![])
+    } else {
+        leftmost_spec(e.kind, &nodes, &index, &plabels, &live, &alpha.iter().copied().collect::<Vec<_>>())
+    };
     Reference {
+        lm_expect,
+        lm_next,
         nodes,
         parent,
         label,
@@ -120,4 +132,77 @@ pub fn compute(e: &Entry) -> Reference {
         maxdepth,
         maxchain,
     }
+}
+
+/// The leftmost automaton BY DEFINITION, on strings.
+///
+/// A state with string `w` stands for "the text read since the current candidate start is `w`".
+/// For a start offset `p` into `w` let `x = w[p..]`; the patterns that have occurred at that start
+/// are those that are prefixes of `x`; the best of them is the longest (leftmost-longest) or the
+/// earliest registered (leftmost-first).
+///
+/// * Output of the state: take the smallest `p` at which some pattern has occurred (the leftmost
+///   start); if its best pattern ends exactly at the end of `w` the state must carry that pattern,
+///   otherwise it must carry nothing (the candidate was recorded earlier and has not changed).
+/// * Transition on symbol `c`: for `p = 0, 1, ...`: if `x.c` is a prefix of a reportable pattern, go
+///   there (the candidate start `p` is still alive); otherwise, if a pattern has already occurred at
+///   `p`, the search must stop and emit (target: root); otherwise give up `p` and try `p + 1`.
+///   Nothing left: root.
+fn leftmost_spec(
+    kind: MatchKind,
+    nodes: &[Vec<u32>],
+    index: &BTreeMap<&[u32], u32>,
+    plabels: &[Vec<u32>],
+    live: &[bool],
+    alpha: &[u32],
+) -> (Vec<Option<usize>>, Vec<Vec<u32>>) {
+    let np = plabels.len();
+    let occurred = |x: &[u32]| -> Vec<usize> {
+        (0..np)
+            .filter(|&i| plabels[i].len() <= x.len() && x[..plabels[i].len()] == plabels[i][..])
+            .collect()
+    };
+    let best = |c: &[usize]| -> usize {
+        if kind == MatchKind::LeftmostFirst {
+            *c.iter().min().unwrap()
+        } else {
+            *c.iter().max_by_key(|&&i| plabels[i].len()).unwrap()
+        }
+    };
+    let mut expect = vec![];
+    let mut next = vec![];
+    for w in nodes {
+        let mut e = None;
+        for p in 0..w.len() {
+            let occ = occurred(&w[p..]);
+            if !occ.is_empty() {
+                let b = best(&occ);
+                if p + plabels[b].len() == w.len() {
+                    e = Some(b);
+                }
+                break;
+            }
+        }
+        expect.push(e);
+        let mut row = vec![];
+        for &c in alpha {
+            let mut target = 0u32;
+            for p in 0..=w.len() {
+                let x = &w[p..];
+                let mut y = x.to_vec();
+                y.push(c);
+                if let Some(&j) = index.get(y.as_slice()) {
+                    target = j;
+                    break;
+                }
+                if occurred(x).iter().any(|&i| live[i]) {
+                    target = 0;
+                    break;
+                }
+            }
+            row.push(target);
+        }
+        next.push(row);
+    }
+    (expect, next)
 }
